@@ -102,6 +102,10 @@ type simpleRequest struct {
 	// request, it's used to skip the filter when the request is resent
 	// to another backend after a redirection.
 	cpsDone bool
+
+	// redirections is the number of times the request has been sent again
+	// because of a MOVED or ASK response.
+	redirections int
 }
 
 func newSimpleRequest(v *RespValue) *simpleRequest {
